@@ -40,7 +40,7 @@ def file_total(version, timecnt, typecnt, charcnt_max=3, extra=2, **_):
     if version >= 2: return HDR + data_len(4, 0, 1, 1) + HDR + data_len(8, timecnt, typecnt, charcnt_max) + 2 + extra
     return HDR + data_len(4, timecnt, typecnt, charcnt_max) + extra
 
-def job_load(version, timecnt, typecnt, charcnt_max=3, extra=2, big_types=False, queries=True, lean=False, fixed_times=False):
+def job_load(version, timecnt, typecnt, charcnt_max=3, extra=2, big_types=False, queries=True, lean=False, fixed_times=False, empty_footer=False):
     mod = tz.module()
     ex = symex.Executor(mod, tlimit_ms=120000)
     ex.max_unwind = 300 if big_types else 40
@@ -120,6 +120,18 @@ def job_load(version, timecnt, typecnt, charcnt_max=3, extra=2, big_types=False,
             ex.assume(st, eq(be(B[hb + 32:hb + 36]), timecnt))
             ex.assume(st, eq(be(B[hb + 36:hb + 40]), typecnt))
             count_field(hb + 40, 0, charcnt_max)   # charcnt
+            if empty_footer and version >= 2:
+                # the footer is empty wherever the data block ends (that position depends on the optional counts): used by the shape
+                # that leaves room for a leap record, whose subject is the header check, not the footer
+                tl_ = 8
+                for cc in range(charcnt_max + 1):
+                    for lc in (0, 1):
+                        for su in range(typecnt + 1):
+                            for ss_ in range(typecnt + 1):
+                                end = hb + HDR + (tl_ + 1) * timecnt + 6 * typecnt + cc + (tl_ + 4) * lc + su + ss_
+                                if end + 1 < total:
+                                    ex.assume(st, implies(and_(eq(be(B[hb + 40:hb + 44]), cc), eq(be(B[hb + 28:hb + 32]), lc), eq(be(B[hb + 24:hb + 28]), su), eq(be(B[hb + 20:hb + 24]), ss_)),
+                                                          eq(B[end + 1], 10)))
         # ---- harness ZoneInfoSource: vptr -> {dtor, dtor, Read, Skip, Version}
         vt = ex.new_obj(st, 40, "harness vtable", ro=False)
         for i, nm in enumerate(("h_dtor", "h_dtor", "h_Read", "h_Skip", "h_Version")):
@@ -460,7 +472,7 @@ def run(tier):
     # only kept for the smallest 64-bit shape of the thorough tier
     jobs = [("Load:v%d,timecnt=%d,typecnt=%d" % s, job_load, {"version": s[0], "timecnt": s[1], "typecnt": s[2], "queries": False}) for s in shapes]
     # room for one leap-second record behind the data block (files with leap records must be rejected, whichever header declares them)
-    jobs.append(("Load:v2,timecnt=0,typecnt=1,room for a leap record", job_load, {"version": 2, "timecnt": 0, "typecnt": 1, "extra": 14, "queries": False}))
+    jobs.append(("Load:v2,timecnt=0,typecnt=1,room for a leap record", job_load, {"version": 2, "timecnt": 0, "typecnt": 1, "extra": 14, "queries": False, "empty_footer": True}))
     if tier == "thorough":
         jobs.append(("Load+queries:v2,timecnt=1,typecnt=1", job_load, {"version": 2, "timecnt": 1, "typecnt": 1, "queries": True}))
     lean = [(1, 1, 2)] if tier == "quick" else [(1, 1, 2), (1, 2, 2), (2, 1, 2)]
